@@ -68,6 +68,7 @@ def absFail (o : Op) (a : Abs) : Option Abs :=
 def absOk (o : Op) (a : Abs) : Option Abs :=
   match o with
   | .stat => some { a with stat := (a.pm == .orig) }
+  | .lstat => some { a with stat := false }  -- may describe a symbolic link, not the file
   | .createTemp _ => some { a with tmp := .file .empty .other, fd := .tmp0 }
   | .openW r creat excl trunc _ =>
     match r with
@@ -210,8 +211,8 @@ theorem Rel.safe {a : Abs} {s : St} (h : Rel orig fmt mode a s) : Safe orig fmt 
     · exact Or.inl hp.1
     · exact Or.inr hp.1
 
-theorem rel_init (stale : Option File) (umask : Nat) :
-    Rel orig fmt mode Abs.init (init orig mode stale umask) := by
+theorem rel_init (stale : Option File) (umask : Nat) (link : Option Nat) :
+    Rel orig fmt mode Abs.init (init orig mode stale umask link) := by
   constructor <;> simp [Abs.init, init, pathOK, modeOK, tmpOK, fdOK]
 
 theorem overwrite_nil (d : Bytes) : overwrite [] 0 d = d := by
@@ -331,6 +332,14 @@ theorem absOk_sound {a a' : Abs} {s : St} (o : Op)
       simp only [beq_iff_eq] at hs
       simp only [hp, pathOK, hs, modeOK] at hpath
       simp [hpath.2]
+  | lstat =>
+    simp only [absOk, Option.some.injEq] at ha; subst ha
+    simp only [apply]
+    split
+    · exact ⟨hpath, htmp, hfd, by intro h; cases h⟩
+    · split
+      · exact ⟨hpath, htmp, hfd, by intro h; cases h⟩
+      · exact ⟨hpath, htmp, hfd, by intro h; cases h⟩
   | createTemp m =>
     simp only [absOk, Option.some.injEq] at ha; subst ha
     exact ⟨hpath, ⟨rfl, trivial⟩, rfl, hstat⟩
@@ -631,11 +640,24 @@ theorem absOk_sound {a a' : Abs} {s : St} (o : Op)
       · cases ha
     · simp only [absOk, Option.some.injEq] at ha; subst ha; simpa [apply] using h
 
+theorem Rel.set_link {a : Abs} {s : St} (h : Rel orig fmt mode a s) (l : Option Nat) :
+    Rel orig fmt mode a { s with link := l } := ⟨h.path, h.tmp, h.fd, h.stat⟩
+
+theorem absOkL_sound {a a' : Abs} {s : St} (o : Op)
+    (h : Rel orig fmt mode a s) (ha : absOk o a = some a') :
+    Rel orig fmt mode a' (applyL fmt o s) := by
+  have h0 := absOk_sound orig fmt mode o h ha
+  unfold applyL
+  split
+  · exact h0.set_link orig fmt mode none
+  · exact h0.set_link orig fmt mode none
+  · exact h0
+
 theorem absEv_sound {a a' : Abs} {s : St} (e : Ev) (n : Nat)
     (h : Rel orig fmt mode a s) (ha : absEv e a = some a') :
     Rel orig fmt mode a' (applyEv fmt n e s) := by
   cases e with
-  | ok o => exact absOk_sound orig fmt mode o h ha
+  | ok o => exact absOkL_sound orig fmt mode o h ha
   | fail o => exact absFail_sound orig fmt mode o n h ha
 
 /-- Soundness of the abstract run for complete traces. -/
@@ -722,27 +744,28 @@ complete original or the complete formatted content at `path` — for all conten
 stale temp files, umasks and partial-write lengths of earlier failed writes. -/
 theorem crash_safe_of_safeSeq (t : List Ev) (hs : SafeSeq t = true)
     (orig fmt : Bytes) (mode : Nat) (stale : Option File) (umask : Nat)
-    (k : Nat) (mid : Option Nat) (pw : Nat → Nat) :
-    Safe orig fmt (runUntilCrash fmt t k mid pw (init orig mode stale umask)) := by
+    (k : Nat) (mid : Option Nat) (pw : Nat → Nat) (link : Option Nat := none) :
+    Safe orig fmt (runUntilCrash fmt t k mid pw (init orig mode stale umask link)) := by
   unfold SafeSeq at hs
   cases hr : absRun t Abs.init with
   | none => simp [hr] at hs
   | some a' =>
-    exact absRun_crash_safe orig fmt mode t _ a' _ k mid pw (rel_init orig fmt mode stale umask) hr
+    exact absRun_crash_safe orig fmt mode t _ a' _ k mid pw (rel_init orig fmt mode stale umask link) hr
 
 /-- **Generic mode theorem**: a trace satisfying `SafeSeqMode` ends with `path` holding
 exactly the formatted content and the original permission bits. -/
 theorem mode_kept_of_safeSeqMode (t : List Ev) (hs : SafeSeqMode t = true)
-    (orig fmt : Bytes) (mode : Nat) (stale : Option File) (umask : Nat) (pw : Nat → Nat) :
-    (runEvs fmt t pw (init orig mode stale umask)).path = some ⟨fmt, mode⟩ := by
+    (orig fmt : Bytes) (mode : Nat) (stale : Option File) (umask : Nat) (pw : Nat → Nat)
+    (link : Option Nat := none) :
+    (runEvs fmt t pw (init orig mode stale umask link)).path = some ⟨fmt, mode⟩ := by
   unfold SafeSeqMode at hs
   cases hr : absRun t Abs.init with
   | none => simp [hr] at hs
   | some a' =>
     simp only [hr, Bool.and_eq_true, beq_iff_eq] at hs
-    have h := absRun_sound orig fmt mode t _ a' _ pw (rel_init orig fmt mode stale umask) hr
+    have h := absRun_sound orig fmt mode t _ a' _ pw (rel_init orig fmt mode stale umask link) hr
     have hp := h.path
-    cases hsp : (runEvs fmt t pw (init orig mode stale umask)).path with
+    cases hsp : (runEvs fmt t pw (init orig mode stale umask link)).path with
     | none => simp [hsp, pathOK] at hp
     | some f =>
       simp only [hsp, pathOK, hs.1, hs.2, modeOK, if_true] at hp
@@ -752,8 +775,8 @@ theorem mode_kept_of_safeSeqMode (t : List Ev) (hs : SafeSeqMode t = true)
 with its original permission bits at every crash point. -/
 theorem crash_mode_of_modeSafeSeq (t : List Ev) (hs : ModeSafeSeq t = true)
     (orig fmt : Bytes) (mode : Nat) (stale : Option File) (umask : Nat)
-    (k : Nat) (mid : Option Nat) (pw : Nat → Nat) :
-    ∃ f, (runUntilCrash fmt t k mid pw (init orig mode stale umask)).path = some f ∧ f.mode = mode :=
-  absRunM_crash_mode orig fmt mode t _ _ k mid pw (rel_init orig fmt mode stale umask) hs
+    (k : Nat) (mid : Option Nat) (pw : Nat → Nat) (link : Option Nat := none) :
+    ∃ f, (runUntilCrash fmt t k mid pw (init orig mode stale umask link)).path = some f ∧ f.mode = mode :=
+  absRunM_crash_mode orig fmt mode t _ _ k mid pw (rel_init orig fmt mode stale umask link) hs
 
 end GopModel.FS
